@@ -14,6 +14,8 @@ UNIT = {
     'property': 'C01',
     'rlimit': 60,
     'verus_args': ['--edition=2024'],
+    # vacuity twin: every contracted fn with a precondition gets `ensures false` appended and must fail
+    'controls': 'auto',
     'items': [
         ('@raw', 'pub mod sp {\n' + MOD_HEAD),
         (ATTR, ['enum Origin']),
